@@ -10,7 +10,7 @@
     so a semantic change of a translated Go function breaks the lemma of that function (or of a
     caller) on that run, for ALL inputs, independently of what the sampled correspondence run
     happens to hit. Nothing admitted; no axioms in the integer/bit/byte groups (can, descriptor,
-    wire, netlink, scan, dbcid, dbcvalidate, lookup); the floating-point groups (physical, apidecide) are on Flocq and depend
+    wire, netlink, scan, dbcid, dbcvalidate, lookup, lintnames); the floating-point groups (physical, apidecide) are on Flocq and depend
     on the standard-library axioms its lemmas use, and on nothing else (checked by
     checks/translate_tie.py against vlib.AXIOM_WHITELIST).
 
@@ -1345,4 +1345,55 @@ Proof.
   - rewrite T_Signal_UnmarshalUnsigned_eq_l by assumption. rewrite T_Signal_ValueDescription_eq.
     rewrite wrap_s64_u; [reflexivity |]. unfold unmarshal_unsigned.
     destruct (s_big_endian s); [apply ubits_be_in_u64 | apply ubits_le_in_u64; destruct Hs; lia].
+Qed.
+
+(* @group lintnames requires dbcvalidate *)
+(** ** internal/identifiers/case.go IsCamelCase  (model: Dbc/Lint.v [is_camel_case], used by the
+       analyzers messagenames / signalnames).  unicode.IsDigit / unicode.IsUpper have no model: the
+       hand model takes them as oracles (Section variables), the translated function as its two
+       leading parameters; the lemma holds for EVERY pair of functions.  The runes of the string:
+       GoSem.v's [go_utf8_decode] against Lint.v's [decode_first] (equal on every non-empty input).
+       Precondition: a Go string has fewer than 2^63 bytes (the counter i++ cannot wrap). *)
+From CanVerif Require Dbc.Lint.
+
+Lemma decode_first_go b0 t :
+  Dbc.Lint.decode_first (b0 :: t) = (fst (go_utf8_decode (b0 :: t)), Z.to_nat (snd (go_utf8_decode (b0 :: t)))).
+Proof.
+  unfold Dbc.Lint.decode_first, go_utf8_decode, Dbc.Lint.is_cont, utf8_cont, Dbc.Lint.rune_error. cbv zeta.
+  repeat match goal with
+         | |- context [if ?c then _ else _] => destruct c
+         | |- context [match ?l with [] => _ | _ :: _ => _ end] => destruct l
+         end; reflexivity.
+Qed.
+
+Lemma camel_loop_eq (ud uu : Z -> bool) fuel : forall bs k i,
+  0 <= i -> i + Z.of_nat (length bs) < 2 ^ 63 ->
+  match go_range_string_fuel fuel (fun (_ : Z) v_r v_i =>
+      if ud v_r then LoopNext v_i
+      else if ((v_i =? 0) && negb (uu v_r)) || (negb (Translated.IsAlphaChar v_r) && negb (Translated.IsNumChar v_r))
+           then LoopReturn false
+           else let v_i0 := wrap_s 64 (v_i + 1) in LoopNext v_i0) k bs i with
+  | LoopReturn r => r
+  | LoopNext _ => true
+  end = Dbc.Lint.camel_loop ud uu i (Dbc.Lint.runes_fuel fuel bs).
+Proof.
+  induction fuel as [| fuel IH]; intros bs k i Hi Hlen; [reflexivity |].
+  destruct bs as [| b0 t]; [reflexivity |].
+  cbn [go_range_string_fuel Dbc.Lint.runes_fuel]. rewrite decode_first_go.
+  pose proof (go_utf8_decode_width b0 t) as Hw.
+  destruct (go_utf8_decode (b0 :: t)) as [r w]. cbn [fst snd] in *. cbn [Dbc.Lint.camel_loop].
+  change Translated.IsAlphaChar with Dbc.Lint.is_alpha_char. change Translated.IsNumChar with Dbc.Lint.is_num_char.
+  assert (Hsk : Z.of_nat (length (skipn (Z.to_nat w) (b0 :: t))) <= Z.of_nat (length (b0 :: t)) - 1)
+    by (rewrite skipn_length; cbn [length]; lia).
+  cbn [length] in Hlen, Hsk.
+  destruct (ud r); [apply IH; lia |].
+  destruct (((i =? 0) && negb (uu r)) || (negb (Dbc.Lint.is_alpha_char r) && negb (Dbc.Lint.is_num_char r))); [reflexivity |].
+  cbv zeta. rewrite wrap_s_small by (unfold in_s; lia). apply IH; lia.
+Qed.
+
+Lemma T_IsCamelCase_eq ud uu s : bytes_len s < 2 ^ 63 ->
+  Translated.IsCamelCase ud uu s = Dbc.Lint.is_camel_case ud uu s.
+Proof.
+  intros H. unfold Translated.IsCamelCase, Dbc.Lint.is_camel_case, Dbc.Lint.utf8_runes, go_range_string. cbv zeta.
+  apply camel_loop_eq; [lia | exact H].
 Qed.
